@@ -189,6 +189,27 @@ def run(tier, seed, which=("ind", "pop")):
                     break
             if violations:
                 break
+        if not violations and "pop" in which and (k == 0 or tier != "quick"):
+            # proposals whose evaluation is extreme / non-finite: same contract (one uniform draw per decision, exact restoration)
+            model2, state2, ds2, df2 = make_model_state(kind, kw, n_ft, seed=seed + k)
+            algo2 = make_algo(model2, state2, ds2, seed, sampler_pop=pops[k % 3])
+            for name, sampler in algo2.samplers.items():
+                if type(sampler).__name__ != "IndividualGibbsSampler":
+                    sampler.std = sampler.std * 1e25
+                    ctx = dict(model=kind, hyper=str(kw), variable=name, sweep="extreme proposal scale", beta=1.0, seed=seed + k, sampler=type(sampler).__name__)
+                    from leaspy.exceptions import LeaspyModelInputError
+                    try:
+                        e = check_population_step(state2, sampler, 1.0, violations, ctx)
+                    except LeaspyModelInputError:
+                        # the model itself refuses this configuration while evaluating it (e.g. a metric that is not positive once
+                        # g overflows): the run is aborted by the model, no sampler decision is taken -- not a sampler step
+                        model2, state2, ds2, df2 = make_model_state(kind, kw, n_ft, seed=seed + k)
+                        algo2b = make_algo(model2, state2, ds2, seed, sampler_pop=pops[k % 3])
+                        continue
+                    evals += e
+                    distinct.add((kind, str(kw), name, "extreme"))
+                    if violations:
+                        break
         if tier != "quick" and not violations:
             for sp in pops[1:]:
                 model, state, ds, df = make_model_state(kind, kw, n_ft, seed=seed + k)
